@@ -1,6 +1,6 @@
 (* RunC14.v — executable wrappers (model answers as lists of integers) for the C14 cases. *)
 From Coq Require Import ZArith List Bool.
-From V.Model Require Export Bits Wiring.
+From V.Model Require Export Bits Shape Wiring.
 From V.Harness Require Import Run.
 Import ListNotations.
 Open Scope Z_scope.
@@ -13,6 +13,18 @@ Definition I (f : Z) (w : bool) (ms : members) (d : list Z) : member := Iface (f
 Definition MP (n f w : Z) (sg : bool) (init : Z) (d : list Z) : Z * member := (n, P f w sg init d).
 Definition MI (n f : Z) (w : bool) (ms : members) (d : list Z) : Z * member := (n, I f w ms d).
 Definition Sg (w : bool) (ms : members) : sigt := (w, ms).
+(* port described by range(a, b) / a plain Python Enum: the shape is cast by the C10 model (Model/Shape.v) *)
+Definition MPR (n f a b init : Z) (d : list Z) : Z * member := (n, Port (fl_of f) (cast_range a b 1) init (dims_of d)).
+Definition MPE (n f : Z) (vals : list Z) (init : Z) (d : list Z) : Z * member :=
+  (n, Port (fl_of f) (cast_enum vals) init (dims_of d)).
+(* port described by a data layout (StructLayout / ArrayLayout / Struct): scalar fields (width, initial value) in
+   layout order, least significant first; Layout.const packs them, the port is unsigned(sum of widths) *)
+Definition F (w v : Z) : Z * Z := (w, v).
+Fixpoint pack (l : list (Z * Z)) : Z :=
+  match l with [] => 0 | wv :: r => (snd wv mod 2 ^ fst wv) + 2 ^ fst wv * pack r end.
+Definition agg_width (l : list (Z * Z)) : Z := fold_right (fun wv acc => fst wv + acc) 0 l.
+Definition MPA (n f : Z) (fs : list (Z * Z)) (d : list Z) : Z * member :=
+  (n, Port (fl_of f) (Sh (agg_width fs) false) (pack fs) (dims_of d)).
 Definition N (n : Z) : item := PN n.
 Definition X (i : Z) : item := PI (Z.to_nat i).
 
@@ -70,10 +82,12 @@ Fixpoint obj_put (o : obj) (p : path) (e : edit) : obj :=
 
 Definition Ed (p : path) (e : edit) : path * edit := (p, e).
 (* argument k: (flip the signature first?) create(path=(h,)), edit raw attributes, (wrap with flipped()?) *)
-Definition mk (x : sigt) (h : Z) (fs fo : bool) (edits : list (path * edit)) : obj :=
+Fixpoint flipn (n : nat) (o : obj) : obj :=
+  match n with O => o | S k => match flipped o with Ok o' => flipn k o' | Err _ => OBad end end.
+Definition mk (x : sigt) (h : Z) (fs : bool) (fo : Z) (edits : list (path * edit)) : obj :=
   let o := create (if fs then sig_flip x else x) [PN h] in
   let o := fold_left (fun o pe => obj_put o (fst pe) (snd pe)) edits o in
-  if fo then match flipped o with Ok o' => o' | Err _ => OBad end else o.
+  flipn (Z.to_nat fo) o.
 Definition S_ (nm : list item) (w : Z) (sg : bool) (init : Z) : edit := ESet (OSig nm (Sh w sg) (norm (Sh w sg) init)).
 Definition C_ (w : Z) (sg : bool) (v : Z) : edit := ESet (OConst (Sh w sg) (norm (Sh w sg) v)).
 Definition B_ : edit := ESet OBad.
@@ -105,12 +119,64 @@ Definition k_obj (o : obj) : list Z :=
 Definition k_compliant (o : obj) : list Z :=
   match obj_sig o with None => [-2] | Some x => e_resb (is_compliant x o) end.
 
-(* connect(m, *objs): [1, n, (in, out)*] then the simulation-oracle flag, or [0, error kind] *)
+(* ---- simulation after connect, predicted from the model's assignment list ----
+   the testbench drives the n-th output leaf that is a Signal (arguments in order, leaves in flatten order) with
+   (37 n + 11) mod 1021 cast to its shape, then reads every input leaf that is a Signal, in the same order *)
+Definition item_eqb (a b : item) : bool :=
+  match a, b with PN x, PN y => x =? y | PI x, PI y => Nat.eqb x y | _, _ => false end.
+Fixpoint ipath_eqb (a b : path) : bool :=
+  match a, b with [] , [] => true | x :: a', y :: b' => item_eqb x y && ipath_eqb a' b' | _, _ => false end.
+Definition hpath_eqb (a b : hpath) : bool := Nat.eqb (fst a) (fst b) && ipath_eqb (snd a) (snd b).
+
+Definition obj_leaves (o : obj) : list leaf :=
+  match obj_sig o with
+  | Some x => match flat_obj x o with Ok ls => ls | Err _ => [] end
+  | None => []
+  end.
+Fixpoint tag_objs (k : nat) (objs : list obj) : list (nat * leaf) :=
+  match objs with [] => [] | o :: r => map (fun l => (k, l)) (obj_leaves o) ++ tag_objs (S k) r end.
+Definition is_sig_obj (o : obj) : bool := match o with OSig _ _ _ => true | _ => false end.
+Definition sig_shape (o : obj) : shape := match o with OSig _ sh _ => sh | _ => Sh 0 false end.
+Definition sig_init (o : obj) : Z := match o with OSig _ _ i => i | _ => 0 end.
+
+Fixpoint drives_from (n : Z) (ls : list (nat * leaf)) : list (hpath * Z) :=
+  match ls with
+  | [] => []
+  | (h, l) :: r =>
+      if negb (is_in (l_flow l)) && is_sig_obj (l_val l)
+      then ((h, l_path l), norm (sig_shape (l_val l)) ((37 * n + 11) mod 1021)) :: drives_from (n + 1) r
+      else drives_from n r
+  end.
+Fixpoint lookup_h {A} (k : hpath) (l : list (hpath * A)) : option A :=
+  match l with [] => None | (k', v) :: r => if hpath_eqb k k' then Some v else lookup_h k r end.
+
+Definition sim_expect (objs : list obj) (cs : list asg) : list Z :=
+  let ls := tag_objs 0 objs in
+  let drv := drives_from 1 ls in
+  let reads := filter (fun hl => is_in (l_flow (snd hl)) && is_sig_obj (l_val (snd hl))) ls in
+  Z.of_nat (length reads) ::
+  map (fun hl =>
+         let sh := sig_shape (l_val (snd hl)) in
+         match lookup_h (fst hl, l_path (snd hl)) cs with
+         | None => sig_init (l_val (snd hl))
+         | Some op =>
+             match traverse objs op with
+             | Ok (OSig _ _ _) => match lookup_h op drv with Some v => norm sh v | None => -1 end
+             | Ok (OConst _ v) => norm sh v
+             | _ => -1
+             end
+         end) reads.
+
+(* connect(m, *objs): [1, n, (in, out)*] then the values read in simulation, or [0, error kind] *)
 Definition k_connect (objs : list obj) : list Z :=
   match connect objs with
-  | Ok cs => [1; Z.of_nat (length cs)] ++ flat_map (fun a => e_hpath (fst a) ++ e_hpath (snd a)) cs ++ [1]
+  | Ok cs => [1; Z.of_nat (length cs)] ++ flat_map (fun a => e_hpath (fst a) ++ e_hpath (snd a)) cs ++ sim_expect objs cs
   | Err e => [0; e_err e]
   end.
+
+(* tuple-of-str comparison = lexicographic comparison of the code points (the order used to rank member names) *)
+Definition k_names (names : list (list Z)) : list Z :=
+  map (fun n => Z.of_nat (length (filter (fun m => match path_cmp m n with Lt => true | _ => false end) names))) names.
 
 Fixpoint e_json (j : json) : list Z :=
   match j with
